@@ -33,7 +33,7 @@ ASSUMPTIONS = [
 ]
 
 FEAT = gen.Feat(inherit=True, items=True, uncached=True, objrefs=True, shadow=False, max_top=3, max_child=2,
-                max_cells=3, max_rank=4, depth=2, tick=False, partial=True)
+                max_cells=3, max_rank=4, depth=2, tick=False, partial=True, item_reads_cells=True)
 
 CACHE_OPS = {"clear", "clear_all_space_values", "del_item", "clear_items"}
 
@@ -46,7 +46,11 @@ def plan(tier):
 
 @st.composite
 def histories(draw):
-    ops, G = gen.gen_model_ops(draw, FEAT)
+    gen.ITEM_REF_READS[0] = True
+    try:
+        ops, G = gen.gen_model_ops(draw, FEAT)
+    finally:
+        gen.ITEM_REF_READS[0] = False
     n = draw(st.integers(6, 22))
     for _ in range(n):
         k = draw(st.integers(0, 9))
